@@ -146,7 +146,7 @@ fn ord_main<C: ord::OrdColl>(a: &Args, tr: &mut out::Trace) {
                     (p.parse().expect("n1"), q.parse().expect("n2"))
                 })
                 .collect();
-            ord::run_scale::<C>(tr, &plan, a.num("seed", 1) as u64, a.num("full", 1) != 0, a.num("cap", -1), a.num("snapevery", 16) as u64, a.num("deep", 0) as i32, a.num("faults", 0) != 0);
+            ord::run_scale::<C>(tr, &plan, a.num("seed", 1) as u64, a.num("full", 1) != 0, a.num("cap", -1), a.num("snapevery", 16) as u64, a.num("deep", 0) as i32, a.num("faults", 0) != 0, (a.num("sweep_lo", 1) as i32, a.num("sweep_hi", 0) as i32));
         }
         "ind" => {
             let text = std::fs::read_to_string(a.str("states", "")).expect("states file");
@@ -184,6 +184,7 @@ where
             a.num("seglen", 60) as u64,
             a.driver == "faults" || a.num("inject", 0) != 0,
         ),
+        "dense" => seg::run_dense::<R>(tr, a.num("lo", 0), a.num("hi", 31), a.num("seed", 1) as u64, a.num("inject", 0) != 0, a.num("bulk", 0) as i32),
         "script" => {
             let text = std::fs::read_to_string(a.str("file", "")).expect("script file");
             seg::run_script::<R>(tr, &text);
